@@ -8,7 +8,9 @@ open GrVerif.Vm GrVerif.Seg GrVerif.Gen.Vm
 def QS (s : Seg) : Prop := ∃ l, Linked s l ∧ Clean s l
 
 theorem freeSlot_QS {s : Seg} {l : List Nat} (hl : Linked s l) (hc : Clean s l) (a : Nat)
-    (hf : (s.get a).deleted = true ∨ (s.get a).copied = true) : Linked (s.freeSlot a) l ∧ Clean (s.freeSlot a) l := by
+    (hf : (s.get a).deleted = true ∨ (s.get a).copied = true) : Linked (s.freeSlot a) l ∧ Clean (s.freeSlot a) l ∧
+      (∀ j, j ≠ a → ((s.freeSlot a).get j).next = (s.get j).next ∧ ((s.freeSlot a).get j).prev = (s.get j).prev ∧
+        ((s.freeSlot a).get j).deleted = (s.get j).deleted) := by
   have hal : a ∉ l := fun hh => by
     have := hc.live a hh
     rcases hf with hf | hf
@@ -45,9 +47,10 @@ theorem freeSlot_QS {s : Seg} {l : List Nat} (hl : Linked s l) (hc : Clean s l) 
   revert l1 c1
   have hsz := ss.size
   have hfr := ss.free
-  revert hsz hfr
+  have hsl := ss.slot
+  revert hsz hfr hsl
   generalize (detachChildren (s.unchild a) a ((s.unchild a).slots.size + 1)) = t
-  intro hsz hfr l1 c1
+  intro hsz hfr hsl l1 c1
   unfold Seg.recycle
   have has' : a < t.slots.size := by rw [hsz]; exact has
   have hafree' : a ∉ t.free := by rw [hfr]; exact hafree
@@ -55,7 +58,11 @@ theorem freeSlot_QS {s : Seg} {l : List Nat} (hl : Linked s l) (hc : Clean s l) 
     fun j hj => get_upd_ne t a j _ hj
   have ga : ({ (t.upd a fun _ => { next := t.free.head? }) with free := a :: t.free } : Seg).get a = { next := t.free.head? } :=
     get_upd_self t a _ has'
-  refine ⟨⟨l1.nodup, fun x hx => by simpa using l1.inb x hx, l1.first, l1.last, ?_⟩, ?_⟩
+  refine ⟨⟨l1.nodup, fun x hx => by simpa using l1.inb x hx, l1.first, l1.last, ?_⟩, ?_, ?_⟩
+  rotate_left 2
+  · intro j hj
+    rw [gne j hj]
+    exact ⟨(hsl j).1, (hsl j).2.1, (hsl j).2.2.1⟩
   · exact chain_congr (fun j hj => by rw [gne j (fun hh => hal (hh ▸ hj))]; exact ⟨rfl, rfl⟩) l1.chain
   · refine ⟨fun j hj => ?_, ?_, ?_, ?_, ?_, c1.count⟩
     · rw [gne j (fun hh => hal (hh ▸ hj))]; exact c1.live j hj
@@ -82,7 +89,7 @@ theorem gcStep_QS (acc : Ctx × Option Nat) (k : Nat) (h : QS acc.1.seg) : QS (g
     · rename_i hfl
       obtain ⟨l, hl, hc⟩ := h
       have := freeSlot_QS hl hc _ (by simpa using hfl)
-      exact ⟨l, this.1, this.2⟩
+      exact ⟨l, this.1, this.2.1⟩
     · exact h
   · exact h
 
@@ -112,24 +119,129 @@ theorem finishAction_QS (s : St) (dl : Bool) (h : QS s.ctx.seg)
         · cases e; exact gc_QS _ _ h
         · cases e; exact h
 
-/-- **C03, rule actions.** If the glyph stream is a well-formed doubly linked list `l` before a rule's action runs and the
-slot map's current cell holds a slot of the stream, then after the action – any instruction list, any outcome – and the
-garbage collection that follows it the stream is again a well-formed doubly linked list whose length is the glyph count. -/
-theorem doAction_stream {is : List Instr} {dl : Bool} {mr : Nat} {data : List Nat} {ctx : Ctx} {l : List Nat}
-    (hl : Linked ctx.seg l) (hc : Clean ctx.seg l)
-    (hmap : ∀ x, ctx.smap.getD ((ctx.context : Int) + 1).toNat none = some x → x ∈ l)
+/-- what a rule action hands back: the stream `l` is well formed, the high-water mark is in it, and the slot `so` it
+returns is null, a slot of the stream, or the deleted former first slot -/
+def JO (c : Ctx) (l : List Nat) (so : Option Nat) : Prop := J (c.setIs so) l
+
+theorem JO.mk' {c : Ctx} {l : List Nat} {so : Option Nat} (hl : Linked c.seg l) (hc : Clean c.seg l) (hi : IsOK c.seg l so)
+    (hh : HwOK c.highwater l) : JO c l so := ⟨hl, hc, hi, hh⟩
+theorem JO.linked {c : Ctx} {l : List Nat} {so : Option Nat} (h : JO c l so) : Linked c.seg l := (show J (c.setIs so) l from h).linked
+theorem JO.clean {c : Ctx} {l : List Nat} {so : Option Nat} (h : JO c l so) : Clean c.seg l := (show J (c.setIs so) l from h).clean
+theorem JO.isok {c : Ctx} {l : List Nat} {so : Option Nat} (h : JO c l so) : IsOK c.seg l so := (show J (c.setIs so) l from h).isok
+theorem JO.hw {c : Ctx} {l : List Nat} {so : Option Nat} (h : JO c l so) : HwOK c.highwater l := (show J (c.setIs so) l from h).hw
+
+/-- freeing a marked slot moves a cursor that sat on it to a neighbour, and the cursor stays where a cursor may be -/
+theorem freeSlot_isok {s : Seg} {l : List Nat} (hl : Linked s l) (hc : Clean s l) (a : Nat)
+    (hf : (s.get a).deleted = true ∨ (s.get a).copied = true) (o : Option Nat) (ho : IsOK s l o) :
+    IsOK (s.freeSlot a) l
+      (if o = some a then (s.get a).prev.or (s.get a).next else o) := by
+  have hal : a ∉ l := fun hh => by
+    have := hc.live a hh
+    rcases hf with hf | hf
+    · rw [this.1] at hf; cases hf
+    · rw [this.2] at hf; cases hf
+  obtain ⟨_, _, hfr⟩ := freeSlot_QS hl hc a hf
+  split
+  · rename_i hoa
+    rcases ho with h0 | ⟨i, h1, h2⟩ | ⟨d, h1, h2, h3, h4, h5⟩
+    · rw [h0] at hoa; cases hoa
+    · rw [h1] at hoa; cases hoa; exact absurd h2 hal
+    · rw [h1] at hoa; cases hoa
+      rw [h5, Option.none_or, h4]
+      exact isok_opt_mem (fun x hx => head?_mem hx)
+  · rename_i hoa
+    rcases ho with h0 | ⟨i, h1, h2⟩ | ⟨d, h1, h2, h3, h4, h5⟩
+    · exact .inl h0
+    · exact .inr (.inl ⟨i, h1, h2⟩)
+    · have hda : d ≠ a := fun e => hoa (by rw [h1, e])
+      have := hfr d hda
+      exact .inr (.inr ⟨d, h1, h2, by rw [this.2.2]; exact h3, by rw [this.1]; exact h4, by rw [this.2.1]; exact h5⟩)
+
+theorem gcStep_JO (acc : Ctx × Option Nat) (k : Nat) {l : List Nat} (h : JO acc.1 l acc.2) :
+    JO (gcStep acc k).1 l (gcStep acc k).2 := by
+  unfold gcStep
+  split
+  · simp only []
+    split
+    · rename_i sl hsl hfl
+      have hf : (acc.1.seg.get sl).deleted = true ∨ (acc.1.seg.get sl).copied = true := by simpa using hfl
+      obtain ⟨h1, h2, _⟩ := freeSlot_QS h.linked h.clean sl hf
+      have h3 := freeSlot_isok h.linked h.clean sl hf acc.2 h.isok
+      exact JO.mk' (by simpa using h1) (by simpa using h2) (by simpa using h3) (by simpa using h.hw)
+    · exact h
+  · exact h
+
+theorem gc_JO (c : Ctx) (a : Option Nat) {l : List Nat} (h : JO c l a) :
+    JO (collectGarbage c a).1 l (collectGarbage c a).2 := by
+  unfold collectGarbage
+  generalize (List.range (c.size - 1)) = ks
+  have : ∀ (ks : List Nat) (acc : Ctx × Option Nat), JO acc.1 l acc.2 → JO (ks.foldl gcStep acc).1 l (ks.foldl gcStep acc).2 := by
+    intro ks
+    induction ks with
+    | nil => intro acc h; exact h
+    | cons k rest ih => intro acc h; exact ih _ (gcStep_JO acc k h)
+  exact this ks (c, a) h
+
+/-- `*map = is` followed by reading the cell back -/
+theorem storeIs_read (c : Ctx) (h : 0 ≤ c.map ∧ c.map.toNat < c.smap.size) :
+    c.storeIs.smap.getD c.storeIs.map.toNat none = c.is := by
+  unfold Ctx.storeIs Ctx.setCell
+  simp only []
+  simp [Array.getD_eq_getD_getElem?, h.2]
+
+theorem finishAction_JO (s : St) (dl : Bool) {l : List Nat} (h : J s.ctx l)
+    {r : Int} {st : Status} {so : Option Nat} {c : Ctx} (e : finishAction s dl = .ok (r, st, so, c)) : JO c l so := by
+  unfold finishAction at e
+  simp only [] at e
+  split at e
+  · cases e
+  · rename_i hb
+    have hb' : 0 ≤ s.ctx.map ∧ s.ctx.map.toNat < s.ctx.smap.size := by
+      apply Classical.byContradiction; intro hn; exact hb hn
+    have hrd := storeIs_read s.ctx hb'
+    have hbase : JO s.ctx.storeIs l (s.ctx.storeIs.smap.getD s.ctx.storeIs.map.toNat none) := by
+      rw [hrd]; exact JO.mk' h.linked h.clean h.isok h.hw
+    split at e
+    · cases e
+    · split at e
+      · cases e
+        exact JO.mk' h.linked h.clean (.inl rfl) (fun x hx => by cases hx)
+      · split at e
+        · cases e; exact gc_JO _ _ hbase
+        · cases e; exact hbase
+
+/-- **C03, rule actions (with the cursor).** If the glyph stream is a well-formed doubly linked list `l` before a rule's
+action runs, the high-water mark is a slot of it and the slot map's current cell holds a slot a cursor may be at, then
+after the action – any instruction list, any outcome – and the garbage collection that follows, the stream is again a
+well-formed doubly linked list `l'`, the high-water mark is a slot of it, and so is the slot handed back (or it is null
+or the deleted former first slot). -/
+theorem doAction_cursor {is : List Instr} {dl : Bool} {mr : Nat} {data : List Nat} {ctx : Ctx} {l : List Nat}
+    (hl : Linked ctx.seg l) (hc : Clean ctx.seg l) (hh : HwOK ctx.highwater l)
+    (hcell : IsOK ctx.seg l (ctx.smap.getD ((ctx.context : Int) + 1).toNat none))
     {r : Int} {st : Status} {so : Option Nat} {c : Ctx}
-    (e : doAction is dl mr data ctx = .ok (r, st, so, c)) : QS c.seg := by
+    (e : doAction is dl mr data ctx = .ok (r, st, so, c)) : ∃ l', JO c l' so := by
   unfold doAction at e
   simp only [] at e
   split at e
-  · cases e; exact ⟨l, hl, hc⟩
-  · have h0 : PS (enterCtx (startCtx ctx)) := ⟨l, ⟨hl, hc, isok_opt_mem hmap⟩⟩
+  · cases e; exact ⟨l, JO.mk' hl hc (.inl rfl) (fun x hx => by cases hx)⟩
+  · have h0 : PS (enterCtx (startCtx ctx)) := ⟨l, ⟨hl, hc, hcell, hh⟩⟩
     have hr := runLoop_preserves PS ops_PS is { vm := initVm data, ctx := enterCtx (startCtx ctx) } h0
     split at e
     · cases e
     · rename_i s heq
       rw [heq] at hr
-      exact finishAction_QS s dl hr.toQS e
+      obtain ⟨l', hj⟩ := hr
+      exact ⟨l', finishAction_JO s dl hj e⟩
+
+/-- **C03, rule actions.** If the glyph stream is a well-formed doubly linked list `l` before a rule's action runs and the
+slot map's current cell holds a slot of the stream, then after the action – any instruction list, any outcome – and the
+garbage collection that follows it the stream is again a well-formed doubly linked list whose length is the glyph count. -/
+theorem doAction_stream {is : List Instr} {dl : Bool} {mr : Nat} {data : List Nat} {ctx : Ctx} {l : List Nat}
+    (hl : Linked ctx.seg l) (hc : Clean ctx.seg l) (hh : HwOK ctx.highwater l)
+    (hmap : ∀ x, ctx.smap.getD ((ctx.context : Int) + 1).toNat none = some x → x ∈ l)
+    {r : Int} {st : Status} {so : Option Nat} {c : Ctx}
+    (e : doAction is dl mr data ctx = .ok (r, st, so, c)) : QS c.seg := by
+  obtain ⟨l', h⟩ := doAction_cursor hl hc hh (isok_opt_mem hmap) e
+  exact ⟨l', h.linked, h.clean⟩
 
 end GrVerif.Action
